@@ -101,10 +101,7 @@ Qed.
 
 Theorem dense_define_refines d k dsc : InvDn d -> k < MAXIDX -> desc_wf dsc = true ->
   s_define (absD d) k dsc = (absA (fst (d_defineIdx d k dsc)), snd (d_defineIdx d k dsc)) /\
-  (no_kind_change (dnth (da_values d) k) dsc = true ->
-   (forall p s, goja_define (b_ext (da_base d)) (dnth (da_values d) k) dsc = Some p ->
-                fst (d_defineIdx d k dsc) = IS s -> is_vp p = false) ->
-   InvA (fst (d_defineIdx d k dsc))).
+  InvA (fst (d_defineIdx d k dsc)).
 Proof.
   intros [Hlen Hinv] Hk Hwf. pose proof Hinv as (Hasc & Hkeys & Hclean & Hcnt).
   set (vs := da_values d) in *. set (items := enum_from vs 0) in *.
@@ -116,7 +113,7 @@ Proof.
   rewrite <- (define_refines_spec (b_ext (da_base d)) (dnth vs k) dsc Hwf Hex).
   unfold d_defineIdx. fold vs.
   destruct (goja_define (b_ext (da_base d)) (dnth vs k) dsc) as [prop|] eqn:Eg; simpl option_map.
-  2:{ simpl. destruct ((da_length d <=? k) && negb (da_lw d)); split; auto; intros; split; auto. }
+  2:{ simpl. destruct ((da_length d <=? k) && negb (da_lw d)); (split; [reflexivity|exact (conj Hlen Hinv)]). }
   (* the length step *)
   assert (Hstep : exists a1,
      (if da_length d <=? k then d_setLengthInt_chk d (k + 1) else (d, true)) =
@@ -132,14 +129,13 @@ Proof.
     - exists d. split; [reflexivity|]. split; [discriminate|]. intros _. destruct d; reflexivity. }
   destruct Hstep as (a1 & E1 & Hfail & Hok). rewrite E1. clear E1.
   destruct ((da_length d <=? k) && negb (da_lw d)) eqn:Eb; simpl.
-  { rewrite (Hfail eq_refl). simpl. split; auto. intros; split; auto. }
+  { rewrite (Hfail eq_refl). simpl. split; [reflexivity|exact (conj Hlen Hinv)]. }
   specialize (Hok eq_refl). clear Hfail.
   set (len' := if da_length d <=? k then k + 1 else da_length d) in *.
   assert (Hk' : k < len') by (unfold len'; destruct (N.leb_spec (da_length d) k); lia).
   assert (Hll : da_length d <= len') by (unfold len'; destruct (N.leb_spec (da_length d) k); lia).
-  assert (Hcp : no_kind_change (dnth vs k) dsc = true -> iv_clean prop = true).
-  { intros Hnk. pose proof (define_clean_partial (b_ext (da_base d)) _ _ Hwf Hex Hnk) as Hc.
-    rewrite Eg in Hc. exact Hc. }
+  assert (Hcp : iv_clean prop = true).
+  { pose proof (define_clean (b_ext (da_base d)) _ _ Hwf Hex) as Hc. rewrite Eg in Hc. exact Hc. }
   assert (Hlook : alookup items k = dnth vs k) by (unfold items; apply enum_lookup_dnth).
   (* the three outcomes of expand *)
   assert (Hv1 : da_values a1 = vs) by (subst a1; reflexivity).
@@ -152,19 +148,18 @@ Proof.
     rewrite Ha2 in Hi.
     split.
     + rewrite absA_form. cbn [i_items]. rewrite Hi, absL_ains. subst a2. reflexivity.
-    + intros Hnk _. apply InvA_form.
+    + apply InvA_form.
       * rewrite Hn. subst a2. simpl. lia.
       * cbn [i_items]. rewrite Hi. subst a2. simpl.
         apply (items_put items (da_length d) (da_pvc d)); auto. rewrite Hlook.
         destruct (dnth vs k) as [[v|p]|]; unfold ovpz, vpz; simpl; destruct (is_vp prop); lia.
-  - (* dense -> sparse *)
+  - (* dense -> sparse: the new property is counted on the new storage (8dbb372) *)
     subst a1. split.
     + rewrite absA_form. simpl. fold items. rewrite absL_ains. reflexivity.
-    + intros Hnk Hvp. apply InvA_form; auto. simpl. fold items.
+    + apply InvA_form; auto. simpl. fold items.
       apply (items_put items (da_length d) (da_pvc d)); auto.
       rewrite Hlook, (dnth_ge vs k) by lia.
-      assert (Hz : is_vp prop = false) by (eapply Hvp; eauto).
-      unfold ovpz, vpz. rewrite Hz. lia.
+      unfold ovpz, vpz. destruct (is_vp prop); lia.
   - (* the slots are extended *)
     subst a1. unfold d_with_values. simpl da_values in *.
     set (vs' := vs ++ repeat None (N.to_nat (k + 1 - nlen vs))).
@@ -178,7 +173,7 @@ Proof.
     rewrite Ha2 in Hi.
     split.
     + rewrite absA_form. cbn [i_items]. rewrite Hi, absL_ains. subst a2. reflexivity.
-    + intros Hnk _. apply InvA_form.
+    + apply InvA_form.
       * rewrite Hn. subst a2. simpl. lia.
       * cbn [i_items]. rewrite Hi. subst a2. simpl.
         apply (items_put items (da_length d) (da_pvc d)); auto.
@@ -235,10 +230,7 @@ Qed.
 
 Theorem sparse_define_refines s k dsc : InvSp s -> k < MAXIDX -> desc_wf dsc = true ->
   s_define (absS s) k dsc = (absA (fst (sp_defineIdx s k dsc)), snd (sp_defineIdx s k dsc)) /\
-  (no_kind_change (alookup (sa_items s) k) dsc = true ->
-   (forall p d, goja_define (b_ext (sa_base s)) (alookup (sa_items s) k) dsc = Some p ->
-                fst (sp_defineIdx s k dsc) = ID d -> is_vp p = false) ->
-   InvA (fst (sp_defineIdx s k dsc))).
+  InvA (fst (sp_defineIdx s k dsc)).
 Proof.
   intros Hinv Hk Hwf. pose proof Hinv as (Hasc & Hkeys & Hclean & Hcnt).
   set (items := sa_items s) in *.
@@ -248,7 +240,7 @@ Proof.
   rewrite <- (define_refines_spec (b_ext (sa_base s)) (alookup items k) dsc Hwf Hex).
   unfold sp_defineIdx. fold items.
   destruct (goja_define (b_ext (sa_base s)) (alookup items k) dsc) as [prop|] eqn:Eg; simpl option_map.
-  2:{ simpl. destruct ((sa_length s <=? k) && negb (sa_lw s)); split; auto; intros; exact Hinv. }
+  2:{ simpl. destruct ((sa_length s <=? k) && negb (sa_lw s)); (split; [reflexivity|exact Hinv]). }
   assert (Hstep : exists s1,
      (if sa_length s <=? k then sp_setLengthInt_chk s (k + 1) else (s, true)) =
         (s1, negb ((sa_length s <=? k) && negb (sa_lw s))) /\
@@ -268,29 +260,32 @@ Proof.
   set (len' := if sa_length s <=? k then k + 1 else sa_length s) in *.
   assert (Hk' : k < len') by (unfold len'; destruct (N.leb_spec (sa_length s) k); lia).
   assert (Hll : sa_length s <= len') by (unfold len'; destruct (N.leb_spec (sa_length s) k); lia).
-  assert (Hcp : no_kind_change (alookup items k) dsc = true -> iv_clean prop = true).
-  { intros Hnk. pose proof (define_clean_partial (b_ext (sa_base s)) _ _ Hwf Hex Hnk) as Hc.
-    rewrite Eg in Hc. exact Hc. }
-  assert (Hput : forall s2, s2 = s1 ->
+  assert (Hcp : iv_clean prop = true).
+  { pose proof (define_clean (b_ext (sa_base s)) _ _ Hwf Hex) as Hc. rewrite Eg in Hc. exact Hc. }
+  assert (Hput : forall s2 pv, s2 = s1 ->
+     (pv = (if is_vp prop then 1 else 0) \/
+      exists old, alookup items k = Some old /\ pv = ((if is_vp old then -1 else 0) + (if is_vp prop then 1 else 0)))%Z ->
      (mkS true len' (sa_lw s) (ains (absL items) k (absE prop)) (absL (b_ot (sa_base s))) (b_ext (sa_base s))
           (b_proto (sa_base s)), true) =
-     (absA (IS (sp_cnt (sp_put s2 k prop) (if is_vp prop then 1%Z else 0%Z))), true) /\
-     (no_kind_change (alookup items k) dsc = true ->
-      InvA (IS (sp_cnt (sp_put s2 k prop) (if is_vp prop then 1%Z else 0%Z))))).
-  { intros s2 ->. subst s1. split.
+     (absA (IS (sp_cnt (sp_put s2 k prop) pv)), true) /\
+     InvA (IS (sp_cnt (sp_put s2 k prop) pv))).
+  { intros s2 pv -> Hpv. subst s1. split.
     - rewrite absA_form. simpl. rewrite absL_ains. reflexivity.
-    - intros Hnk. simpl. unfold InvSp. simpl.
+    - simpl. unfold InvSp. simpl.
       apply (items_put items (sa_length s) (sa_pvc s)); auto.
-      pose proof (ovpz_nonneg (alookup items k)). unfold vpz. destruct (is_vp prop); lia. }
+      pose proof (ovpz_nonneg (alookup items k)). unfold vpz.
+      destruct Hpv as [->|(old & Eo & ->)].
+      + destruct (is_vp prop); lia.
+      + rewrite Eo. unfold ovpz, vpz. destruct (is_vp old), (is_vp prop); lia. }
   destruct (alookup items k) as [old|] eqn:Eold.
   - (* redefinition of an existing element *)
-    simpl fst. simpl snd. destruct (Hput s1 eq_refl) as [H1 H2]. split; auto.
+    simpl fst. simpl snd. apply Hput; auto. right. exists old. auto.
   - destruct (sp_expand_cases s1 k) as [Ee|Ee]; rewrite Ee; simpl fst; simpl snd.
-    + destruct (Hput s1 eq_refl) as [H1 H2]. split; auto.
-    + (* sparse -> dense *)
+    + apply Hput; auto.
+    + (* sparse -> dense: the new property is counted on the new storage (8dbb372) *)
       subst s1. unfold expand_s2d. cbn [sa_items sa_length sa_pvc sa_lw sa_base].
       set (m := N.max k (last_key items)).
-      set (a := mkDA (fill_from items 0 (N.to_nat (m + 1))) len' (Z.of_N (nlen items)) (sa_pvc s) (sa_lw s) (sa_base s)).
+      match goal with |- context [d_put ?A k (Some prop)] => set (a := A) end.
       assert (Hvals : enum_from (da_values a) 0 = items).
       { subst a. simpl. apply enum_fill; [apply asc_ascg; auto|].
         intros j x Hin. pose proof (last_key_max _ _ _ _ Hasc Hin). lia. }
@@ -300,13 +295,11 @@ Proof.
       { unfold m. assert (last_key items < len') by (apply last_key_bound; [intros j x Hin; specialize (Hkeys _ _ Hin)|]; lia). lia. }
       destruct (d_put_items a k prop) as [Hi Hn]; [rewrite Hnl; unfold m; lia|].
       rewrite Hvals in Hi.
-      change (mkDA (fill_from items 0 (N.to_nat (m + 1))) len' (Z.of_N (nlen items)) (sa_pvc s) (sa_lw s) (sa_base s)) with a.
       split.
       * rewrite absA_form. cbn [i_items]. rewrite Hi, absL_ains. subst a. reflexivity.
-      * intros Hnk Hvp. apply InvA_form.
+      * apply InvA_form.
         -- rewrite Hn, Hnl. subst a. simpl. lia.
         -- cbn [i_items]. rewrite Hi. subst a. simpl.
            apply (items_put items (sa_length s) (sa_pvc s)); auto.
-           rewrite Eold. assert (Hz : is_vp prop = false) by (eapply Hvp; eauto).
-           unfold ovpz, vpz. rewrite Hz. lia.
+           rewrite Eold. unfold ovpz, vpz. destruct (is_vp prop); lia.
 Qed.
